@@ -867,7 +867,10 @@ func gen(args []string) {
 	}
 	suite, tier := args[0], args[1]
 	seed, _ := strconv.ParseUint(args[2], 10, 64)
-	r := &rng{s: seed*0x9e3779b97f4a7c15 + 12345}
+	// hash the seed so that streams of different seeds do not overlap
+	r := &rng{s: seed}
+	r.s = r.next() ^ 0x5851f42d4c957f2d
+	r.s = r.next()
 	o := &out{w: bufio.NewWriterSize(os.Stdout, 1<<20)}
 	defer o.w.Flush()
 	thorough := tier == "thorough"
